@@ -35,4 +35,13 @@ CLAIMS = {
           'Not covered: the unloadable 841 map, cases where is_valid raises regardless of notes. Trusted: TLC, projections in lib/c14.py.',
   'technique': 'TLA+ model checking (TLC) Impl=Def + replay of TLC cases into the code + TLC trace validation of the complete recorded table',
  },
+ 'C11': {
+  'text': 'TLC checks on WriterGen, for every well-nested write history <=6/7 (trailers supplied with right/wrong/absent counts and ids, or omitted) and every prefix as a Close '
+          'point, that the implementation-shaped writer model (X12Writer.Write/_popToLoop/_close_* over X12Base counters) equals the definition WriterDef (non-trailers in order, '
+          'generated trailers with header control number and recount), that the reader model accepts the result and the recount is clean; every history is written through the '
+          'real X12Writer under 5 delimiter/eol settings and both ISA versions; per-Write appended segments, the closed stream, its re-read by the real X12Reader and the ISA '
+          'delimiters are trace-validated by TLC (T_Writer), as are seeded random histories up to 18/40 writes and the repository fixtures piped reader->writer.',
+  'note': 'Duplicate control numbers supplied by the caller are copied (reader errors 025/6/23 not attributed to the writer); LX renumbering option off; trusted: TLC, output splitter/projection in lib/c11.py.',
+  'technique': 'TLA+ refinement check (TLC) writer model vs definition + replay of TLC histories into X12Writer + TLC trace validation',
+ },
 }
